@@ -1,8 +1,16 @@
 """Regenerate every Gen/* Lean file from /repo (used by MANIFEST.setup_cmd before the first lake build)."""
-from tools.translate import gen_panel, gen_conn, gen_field
+import os
+
+from tools import common
+from tools.translate import gen_panel, gen_conn, gen_field, gen_num
+from tools.translate import ctables as ct
 
 if __name__ == '__main__':
     gen_panel.translate_all()
     gen_conn.translate_all()
     gen_field.translate_all()
+    gen_num.translate_all()
+    gen = os.path.join(common.LEAN, 'CompmechVerif', 'Gen', 'CTables')
+    os.makedirs(gen, exist_ok=True)
+    ct.emit_all(common.REPO, gen, common.write_if_changed)
     print('generated')
